@@ -213,7 +213,7 @@ impl Drop for TestEnv {
     }
 }
 
-pub const DEFAULT_MAP: usize = 256 * 1024 * 1024;
+pub const DEFAULT_MAP: usize = 2048 * 1024 * 1024;
 
 // ------------------------------------------------------------------------------------------------
 // Thread pools (cached per size, shared)
